@@ -669,3 +669,58 @@ func (e *Engine) eventContainer(fn *ssa.Function) (at ssa.Instruction, val ssa.V
 	}
 	return hit.(ssa.Instruction), hit.Value(), nilnessOf(hit.Value(), false)
 }
+
+// checkSettersStore: a one-parameter method named Set<X>/Add<X> of the given types that consists of stores only must
+// store its argument (a setter that silently does nothing is invisible to the rules that follow the setter CALLS).
+func checkSettersStore(e *Engine, r *Report, rule, pkg string, typeNames ...string) {
+	n := 0
+	for _, fn := range e.funcsInPkg(pkg) {
+		if fn.Parent() != nil || fn.Signature.Recv() == nil || len(fn.Params) != 2 {
+			continue
+		}
+		tn := namedOf(fn.Signature.Recv().Type())
+		if tn == nil {
+			continue
+		}
+		match := false
+		for _, t := range typeNames {
+			if tn.Obj().Name() == t {
+				match = true
+			}
+		}
+		if !match || !(strings.HasPrefix(fn.Name(), "Set") || strings.HasPrefix(fn.Name(), "Add")) || fn.Signature.Results().Len() != 0 {
+			continue
+		}
+		// plain setters only: no calls except logging
+		plain := true
+		AllInstrs(fn, func(in ssa.Instruction) {
+			if ci, ok := in.(ssa.CallInstruction); ok {
+				if o := callObj(ci.Common()); o == nil || !(strings.HasPrefix(o.Name(), "Debug") || strings.HasPrefix(o.Name(), "Info") || strings.HasPrefix(o.Name(), "Warn")) {
+					plain = false
+				}
+			}
+		})
+		if !plain {
+			continue
+		}
+		n++
+		argP := ssa.Value(fn.Params[1])
+		stores := func(in ssa.Instruction) bool {
+			st, ok := in.(*ssa.Store)
+			if !ok || fieldOfAddr(st.Addr) == nil {
+				return false
+			}
+			hit := false
+			Origins(st.Val, func(v ssa.Value) bool {
+				if sameObject(v, argP) {
+					hit = true
+				}
+				return hit
+			})
+			return hit
+		}
+		p := FindPath(PathQuery{Fn: fn, Target: isRet, Block: stores})
+		r.Check("R9:setter-stores-argument@"+tn.Obj().Name()+"."+fn.Name(), rule, tn.Obj().Name()+"."+fn.Name()+" stores the value it is given", e.Pos(fn.Pos()), fn, p == nil, e.pathString(p), true)
+	}
+	r.MinInstances("plain setters of "+strings.Join(typeNames, "/"), n, 2)
+}
